@@ -1,2 +1,68 @@
-From AG Require Import Str.
-Example placeholder : 1 = 1. Proof. reflexivity. Qed.
+(** C11 — running an accepted query never crashes or hangs, whatever the input.
+
+    A Gallina function is total and deterministic, so "never crashes" would be vacuous if the
+    model could not express the failure.  It can: every partial Rust operation of the anchored
+    code is an explicit [Panic] outcome in the model (chrono's date/duration operators before the
+    fix, the adapter's panic!, the printer's assert!), every real loop is a fuelled recursion
+    whose exhaustion is a distinguished value ([SplitDiverge]).  The theorems say these outcomes
+    are unreachable.  Stack overflow, allocation failure and panics inside dependencies are
+    reached only by driving the real binary. *)
+From Coq Require Import List ZArith NArith Bool Lia.
+From AG Require Import Str F64 Value Json Expr Ops Pipeline Stream_proofs Local_proofs Compile_proofs Split_proofs NoPanic_proofs.
+Import ListNotations.
+
+(** expression evaluation (all operators, all functions, all operand types) never panics:
+    every failure is the sanctioned EvalError channel *)
+Theorem C11_eval_no_panic : forall e d, eval e d <> Panic.
+Proof. exact eval_no_panic. Qed.
+Print Assumptions C11_eval_no_panic.
+
+Theorem C11_arithmetic_no_panic : forall a b,
+  vadd a b <> Panic /\ vsub a b <> Panic /\ vmul a b <> Panic /\ vdiv a b <> Panic.
+Proof. exact arith_no_panic. Qed.
+Print Assumptions C11_arithmetic_no_panic.
+
+(** no row operator panics on any record *)
+Theorem C11_operator_no_panic : forall o r, snd (op_step o r) <> Panic.
+Proof. exact op_step_no_panic. Qed.
+Print Assumptions C11_operator_no_panic.
+
+(** the whole run of any query on any input: never the Panic outcome *)
+Theorem C11_no_panic : forall f stages lines, out (run_pipeline f stages lines) <> Panic.
+Proof. exact run_pipeline_no_panic. Qed.
+Print Assumptions C11_no_panic.
+
+(** the one panic! in the anchored code (PreAggAdapter on a record) is unreachable:
+    the first aggregate operator is never an adapter *)
+Theorem C11_adapter_panic_unreachable : forall stages,
+  match snd (compile stages) with AAdapter _ _ :: _ => False | _ => True end.
+Proof. exact post_head_not_adapter. Qed.
+Print Assumptions C11_adapter_panic_unreachable.
+
+(** termination: split makes progress on every iteration for every separator the type checker accepts *)
+Theorem C11_split_terminates : forall input sep, sep <> [] ->
+  exists l, split_with_delimiters input sep = SplitOk l.
+Proof. exact split_terminates. Qed.
+Print Assumptions C11_split_terminates.
+
+Theorem C11_split_never_diverges : forall sep from out r,
+  stage_ok (SSplit sep from out) = true -> split_op sep from out r <> Unm \/
+  (exists e, from = Some e /\ eval_str e (rdata r) = Unm).
+Proof. exact split_never_diverges. Qed.
+Print Assumptions C11_split_never_diverges.
+
+(** a row that an operator cannot process is skipped without changing the result for any other row ... *)
+Theorem C11_bad_row_isolated : forall ops a x b,
+  forallb is_fun ops = true -> staged ops [x] = [] ->
+  staged ops (a ++ [x] ++ b) = staged ops (a ++ b).
+Proof. exact bad_row_isolated. Qed.
+Print Assumptions C11_bad_row_isolated.
+
+(** ... with exactly one `error:` line when this happens before any aggregation *)
+Theorem C11_error_reported_once : forall o r,
+  snd (op_step o r) = Err ->
+  forall rest, let '(_, res, n) := proc_preagg (o :: rest) r in res = Ok None /\ n = 1%nat.
+Proof. exact error_counted_once. Qed.
+Print Assumptions C11_error_reported_once.
+
+(** after an aggregation rows an operator rejects are skipped silently (unwrap_or(None)): see C03_adapter_rows *)
